@@ -1,6 +1,7 @@
 package props
 
 import (
+	"math"
 	"bytes"
 	"context"
 	"crypto/sha256"
@@ -141,6 +142,9 @@ func genWSMsg(t *rapid.T, c *WSCase, i int) *simrt.Msg {
 	mkEv := func(kind int64) *simrt.EvSpec {
 		e := simrt.EvSpec{Author: rapid.IntRange(0, 3).Draw(t, "author"), Kind: kind, CreatedAt: int64(rapid.IntRange(0, 2000000000).Draw(t, "created_at")),
 			Content: rapid.SampledFrom(wsContents).Draw(t, "content") + fmt.Sprintf(" #%d", i), Sign: true}
+		if rapid.IntRange(0, 9).Draw(t, "xts") == 0 {
+			e.CreatedAt = rapid.SampledFrom([]int64{0, math.MaxInt64, math.MaxInt64 - 1, 1 << 53, 1<<53 + 1}).Draw(t, "xtsv")
+		}
 		for j, n := 0, rapid.IntRange(0, 3).Draw(t, "ntags"); j < n; j++ {
 			switch rapid.IntRange(0, 4).Draw(t, "tagk") {
 			case 0:
@@ -173,10 +177,16 @@ func genWSMsg(t *rapid.T, c *WSCase, i int) *simrt.Msg {
 			}
 			if rapid.IntRange(0, 2).Draw(t, "fl") == 0 {
 				f.Limit = i64(rapid.IntRange(0, 100).Draw(t, "lim"))
+				if rapid.IntRange(0, 7).Draw(t, "xlim") == 0 {
+					f.Limit = i64(math.MaxInt64)
+				}
 			}
 			if rapid.IntRange(0, 3).Draw(t, "fs") == 0 {
 				f.Since = i64(rapid.IntRange(0, 10).Draw(t, "since"))
 				f.Until = i64(10 + rapid.IntRange(0, 10).Draw(t, "until"))
+				if rapid.IntRange(0, 5).Draw(t, "xuntil") == 0 {
+					f.Until = i64(math.MaxInt64)
+				}
 			}
 			switch rapid.IntRange(0, 5).Draw(t, "ft") {
 			case 0:
